@@ -73,6 +73,12 @@ func (e *Encoder) Top(v *Value) {
 		}
 	}
 	walk(v, 0)
+	if len(order) >= 2 && e.Ch.Pick(2, "hoist-order") == 1 {
+		// definitions hoisted in the reverse of the order of first use
+		for i, j := 0, len(order)-1; i < j; i, j = i+1, j-1 {
+			order[i], order[j] = order[j], order[i]
+		}
+	}
 	for _, c := range order {
 		if e.Ch.Pick(2, "hoist-classdef") == 1 {
 			e.classDef(c)
